@@ -1,5 +1,5 @@
 (* C09 driver.
-   E <intsize> <vec> <cfgfile> <b64set> <ok> <rest> <help> <n>
+   E <intsize> <callno> <unchanged> <vec> <cfgfile> <b64set> <ok> <rest> <help> <n>
      { <kind> <group> <goname> <tag> <hname> <hdef> <bound> <usage> <init> <envhand> <envobs> <env> <jfile> <jb64> <final> <oracle> }*n
    hex fields; "-" empty string, "~" none, "." empty list; lists comma separated; oracle = text:canon pairs, canon "!" = error *)
 let toks_of s = if s = "." then [] else List.map bytes_of_hex (String.split_on_char ',' s)
@@ -29,12 +29,13 @@ let () =
   let cases = ref 0 and specfail = ref 0 and mismatch = ref 0 and fields = ref 0 and skipped = ref 0 and failed = ref 0 in
   iter_lines Sys.argv.(1) (fun line ->
     match split_ws line with
-    | "E" :: isz :: vec :: cfgfile :: b64set :: ok :: rest :: help :: n :: blocks ->
+    | "E" :: isz :: callno :: unchanged :: vec :: cfgfile :: b64set :: ok :: rest :: help :: n :: blocks ->
         incr cases;
         let fos = take_fields (int_of_string n) blocks [] in
         fields := !fields + List.length fos;
         let v = check_case (n_of_int (int_of_string isz)) fos (toks_of vec) (opt_of cfgfile) (b64set = "1") (ok = "1") (toks_of rest)
-                  (if help = "~" then None else Some (help = "1")) in
+                  (if help = "~" then None else Some (help = "1"))
+                  (n_of_int (int_of_string callno)) (unchanged = "1") in
         skipped := !skipped + int_of_n v.v_skipped;
         if ok <> "1" then incr failed;
         if not (verdict_spec_ok v) then begin
